@@ -1110,6 +1110,32 @@ pub fn gen(prop: &str, verif_seed: u64, run_index: u64, tier: Tier) -> Trace {
             h.universe = (total + 4) as u32;
         }
     }
+    // C18, long histories: an index of 32 or more buckets accumulates deletion marks under churn and
+    // then rehashes its stored keys in place, calling their Hash from inside the table's own
+    // bookkeeping: injection points no short history contains. One long fill, then a few calls.
+    let mut churn = false;
+    if prop == "C18" && !h.random_state && h.kind.n_lists() > 0 && rc.chance(1, 250) {
+        match h.kind {
+            Kind::Lru => h.sizes = vec![*rc.pick(&[15usize, 20, 28, 28, 40, 56])],
+            Kind::Slru => h.sizes = vec![*rc.pick(&[15usize, 28, 56]), *rc.pick(&[4usize, 28])],
+            Kind::TwoQ => {
+                h.sizes = vec![*rc.pick(&[28usize, 56])];
+                h.ratios = vec![0.25, 0.5];
+            }
+            Kind::Arc => h.sizes = vec![*rc.pick(&[20usize, 28])],
+            Kind::Wtlfu => h.sizes = vec![*rc.pick(&[2usize, 28]), 28, *rc.pick(&[4usize, 28])],
+            _ => {}
+        }
+        for hs in h.hashers.iter_mut() {
+            if matches!(hs.kind, HKind::Const0 | HKind::Masked) {
+                hs.kind = HKind::Fnv;
+            }
+        }
+        churn = true;
+        scale = false;
+        freq = false;
+        stress = false;
+    }
     let mut conversion_run = false;
     if prop == "C17" && rc.chance(1, 16) {
         // conversions (FromIterator / From<collection>) go through RandomState-keyed tables:
@@ -1219,7 +1245,26 @@ pub fn gen(prop: &str, verif_seed: u64, run_index: u64, tier: Tier) -> Trace {
             };
             let mix = rc.below(4) as u8;
             let table = weights(kind, mix, pl.iters, controlled);
-            if scale {
+            if churn {
+                let n1 = rs.range(400, 1500);
+                let mut f = Op::new(Code::Fill);
+                f.fam = *rs.pick(&[0u8, 0, 2, 4]);
+                f.k = 1;
+                f.k2 = 1;
+                f.n = n1 as i64;
+                f.v = next_val;
+                if f.fam == 4 {
+                    f.w = *rs.pick(&[1u64, 3, 30]);
+                }
+                next_val += n1;
+                events.push(Event::new(f));
+                kg.mode = 5;
+                kg.hi = n1 as u32;
+                kg.universe = n1 as u32 + 8;
+                for _ in 0..rs.range(1, 6) {
+                    events.push(Event::new(gen_cache_op(kind, &h, &mut ro, &mut kg, &table, &mut next_val)));
+                }
+            } else if scale {
                 kg.mode = 5;
                 let fill = |fam: u8, k: u32, stride: u32, n: u64, next_val: &mut u64| -> Event {
                     let mut op = Op::new(Code::Fill);
@@ -1326,7 +1371,7 @@ pub fn gen(prop: &str, verif_seed: u64, run_index: u64, tier: Tier) -> Trace {
     }
     // forker client (C16 and friends): clone, lock step, independence, drop one twin
     let cloneable = matches!(kind, Kind::Lru | Kind::Slru | Kind::Wtlfu | Kind::Tlfu);
-    if pl.forks && cloneable && !scale && (prop == "C16" || rs.chance(1, 3)) {
+    if pl.forks && cloneable && !scale && !churn && (prop == "C16" || rs.chance(1, 3)) {
         let at = rs.below(events.len() as u64 + 1) as usize;
         events.insert(at, Event::new(Op::new(Code::Fork)));
         let rest = events.len() - (at + 1);
@@ -1359,6 +1404,9 @@ pub fn gen(prop: &str, verif_seed: u64, run_index: u64, tier: Tier) -> Trace {
     };
     if prop == "C18" || stress || scale {
         t.probe_all = false;
+    }
+    if churn {
+        t.header.universe = t.header.universe.max(1600);
     }
     if prop == "C15" && t.header.with_cb && rs.chance(1, 5) {
         // fault class of C15: the user's callback itself fails at its n-th invocation
